@@ -37,7 +37,6 @@ type env struct {
 const (
 	chanID   = 9
 	initTok  = 5
-	sigTrunc = "C16.renew-delay-truncated-to-seconds"
 	sigPanic = "C16.renew-waitgroup-panic"
 )
 
@@ -75,7 +74,6 @@ func (e *env) delays() {
 	for i := 0; i < e.o.N(2000, 200000); i++ {
 		ls = append(ls, rnd.U64()%(1<<32))
 	}
-	confirmed := false
 	for _, l := range ls {
 		if l >= 1<<32 {
 			continue
@@ -96,32 +94,11 @@ func (e *env) delays() {
 		} else if l == 0 {
 			r.Hit("delay:zero-lifetime")
 		} else {
-			// narrow signature: the delay is 0.75·L cut down to whole seconds, and the uncut value would be in the window
-			exact := life / 4 * 3
-			if life%4 != 0 {
-				exact = time.Duration(float64(life) * 0.75)
-			}
-			sig := ""
-			if when == exact/time.Second*time.Second && when != exact && 2*exact >= life && exact < life {
-				sig = sigTrunc
-			}
-			// the result record keeps 50 failures: do not let the thousands of known ones crowd out an unknown one
-			nKnown := r.Distribution["oracle-fail:"+sigTrunc]
-			if sig == "" || nKnown < 3 || l == 1000 || l == 2500 {
-				r.Fail(c, sig, fmt.Sprintf("lifetime %v: renewal scheduled after %v, not in [%v, %v)", life, when, life/2, life))
-			} else {
-				r.Hit("oracle-fail:" + sigTrunc)
-			}
-			if sig != "" && (l == 1000 || l == 2500) {
-				if !confirmed {
-					r.Confirm(sigTrunc, fmt.Sprintf("scheduleRenewal(lifetime %v) waits %v", life, when))
-				}
-				confirmed = l == 2500 || confirmed
-			}
+			r.Fail(c, "", fmt.Sprintf("lifetime %v: renewal scheduled after %v, not in [%v, %v)", life, when, life/2, life))
 			if when == 0 {
 				r.Hit("delay:immediate")
 			} else {
-				r.Hit("delay:too-early")
+				r.Hit("delay:out-of-window")
 			}
 		}
 	}
@@ -255,7 +232,8 @@ func quiesce() {
 	}
 }
 
-// storm: a 1 s lifetime makes the channel renew continuously
+// live: after a renewal answered with a 1000 ms lifetime the library schedules the next renewal itself;
+// it must come no earlier than 500 ms and before 1000 ms.
 func (e *env) storm() {
 	s := e.open("live-lifetime-1000ms", 10, 1000, false)
 	if s == nil {
@@ -267,36 +245,37 @@ func (e *env) storm() {
 		s.stop()
 		return
 	}
-	t0 := time.Now()
-	// the library now schedules the renewal of the 1000 ms token itself
-	deadline := time.Now().Add(3 * time.Second)
+	deadline := time.Now().Add(4 * time.Second)
 	n := 0
 	for time.Now().Before(deadline) {
 		s.p.mu.Lock()
 		n = len(s.p.opnTimes)
 		s.p.mu.Unlock()
-		if n >= 4 {
+		if n >= 2 {
 			break
 		}
 		time.Sleep(2 * time.Millisecond)
 	}
-	el := time.Since(t0)
 	s.p.mu.Lock()
 	times := append([]time.Time(nil), s.p.opnTimes...)
 	s.p.mu.Unlock()
 	s.stop()
 	quiesce()
 	e.r.Count(s.name, true)
-	e.r.Hit("scenario:live-storm")
-	if n >= 4 && el < 500*time.Millisecond {
-		gaps := []string{}
-		for i := 1; i < len(times) && i < 4; i++ {
-			gaps = append(gaps, times[i].Sub(times[i-1]).Round(10*time.Microsecond).String())
-		}
-		e.r.Fail(s.name, sigTrunc, fmt.Sprintf("tokens with a lifetime of 1000 ms were renewed %d times within %v (gaps %s); half of the lifetime is 500 ms", n-1, el.Round(time.Millisecond), strings.Join(gaps, ", ")))
-		e.r.Sample(fmt.Sprintf("%s: %d OPN requests within %v", s.name, n, el.Round(time.Millisecond)))
-	} else {
-		e.r.Notes = append(e.r.Notes, fmt.Sprintf("%s: %d OPN requests within %v (machine slow?)", s.name, n, el))
+	e.r.Hit("scenario:live-1000ms")
+	if n < 2 {
+		e.r.Fail(s.name, "", "a token with a lifetime of 1000 ms was not renewed within 4 s")
+		return
+	}
+	gap := times[1].Sub(times[0])
+	e.r.Sample(fmt.Sprintf("%s: the library renewed the 1000 ms token %v after it was issued", s.name, gap.Round(time.Millisecond)))
+	switch {
+	case gap < 500*time.Millisecond:
+		e.r.Fail(s.name, "", fmt.Sprintf("token with a lifetime of 1000 ms renewed after %v, before half of its lifetime", gap))
+	case gap < 1000*time.Millisecond:
+		e.r.Hit("live:renewed-in-window")
+	default:
+		e.r.Notes = append(e.r.Notes, fmt.Sprintf("%s: renewal observed after %v (timer due at 750 ms; machine slow?)", s.name, gap))
 	}
 }
 
@@ -790,7 +769,7 @@ func main() {
 	}
 	defer d.Close()
 	e := &env{o, r, d}
-	r.Rule = "cases: (a) one per lifetime value: the real scheduleRenewal evaluated up to its verifPoint vs the Lean delay model (0…20000 ms contiguous, boundaries, 2000 random 32-bit values), oracle L/2 ≤ delay < L on the real value; one live channel with a 1000 ms lifetime; (b) one per scenario: 2–5 senders with real responses racing with 1–2 renewals on a real client channel, trace replayed through the Lean LTS, renewals counted, all calls must complete; up to 25 attempts of a forced pendingReq.Add / pendingReq.Wait race; (c) corpus lines of the server re-key model. Every case is non-trivial; distinct by value / label sequence."
+	r.Rule = "cases: (a) one per lifetime value: the real scheduleRenewal evaluated up to its verifPoint vs the Lean delay model (0…20000 ms contiguous, boundaries, 2000 random 32-bit values), oracle L/2 ≤ delay < L on the real value; one live channel whose 1000 ms token the library must renew between 500 and 1000 ms; (b) one per scenario: 2–5 senders with real responses racing with 1–2 renewals on a real client channel, trace replayed through the Lean LTS, renewals counted, all calls must complete; up to 25 attempts of a forced pendingReq.Add / pendingReq.Wait race; (c) corpus lines of the server re-key model. Every case is non-trivial; distinct by value / label sequence."
 	e.modelOnly()
 	if o.Replay != "" {
 		var seed uint64
@@ -834,7 +813,7 @@ func main() {
 	if r.InfraError == "" {
 		e.storm() // last: its renewal goroutines may outlive the scenario for a moment
 	}
-	for _, b := range []string{"delay:in-window", "delay:immediate", "delay:too-early", "scenario:live-storm", "scenario:around-renewal", "outcome:all-requests-completed",
+	for _, b := range []string{"delay:in-window", "scenario:live-1000ms", "live:renewed-in-window", "scenario:around-renewal", "outcome:all-requests-completed",
 		"label:rLock", "label:rInstall", "label:write", "guard:inside", "guard:outside", "scenario:waitgroup-race"} {
 		if r.Distribution[b] == 0 {
 			r.Unreached = append(r.Unreached, b)
